@@ -21,6 +21,8 @@ Semantics decisions (all validated against real Go by the `TR` differential test
 * loops: `for init; cond; post` is `init ; loop cond post body`; `continue` runs `post`; `for range` over a slice
   evaluates the slice once and needs no fuel; every other loop iteration and every call of a translated function
   consumes one unit of fuel (`Out.oof` when exhausted);
+* nil-able values (interfaces, pointers) are lists — nil is `[]` — and `==` on them is structural equality
+  (`Val.beqs`); the translator admits it only between values of one declared nil-able type;
 * anything ill-typed or outside the subset evaluates to `stuck` — the theorems show it never happens. -/
 namespace ZapVerif.GoMini
 open ZapVerif
@@ -51,6 +53,21 @@ inductive Val where
   | bytes (bs : Bytes)          -- string, []byte
   | list (vs : List Val)        -- any other slice; tuples and opaque records of the intrinsics
 deriving Inhabited
+
+mutual
+/-- structural equality of values: what `==` means on the nil-able values (interfaces holding comparable dynamic
+    values, pointers), which are lists here -/
+def Val.beq : Val → Val → Bool
+  | .int a, .int b => a == b
+  | .bool a, .bool b => a == b
+  | .bytes a, .bytes b => a == b
+  | .list a, .list b => Val.beqs a b
+  | _, _ => false
+def Val.beqs : List Val → List Val → Bool
+  | [], [] => true
+  | a :: as, b :: bs => Val.beq a b && Val.beqs as bs
+  | _, _ => false
+end
 
 inductive Panic where
   | index      -- index out of range
@@ -236,6 +253,8 @@ def evalBin : BinOp → Val → Val → Res Val
   | .ne, .bool a, .bool b => .ok (.bool (a != b))
   | .eq, .bytes a, .bytes b => .ok (.bool (a == b))
   | .ne, .bytes a, .bytes b => .ok (.bool (a != b))
+  | .eq, .list a, .list b => .ok (.bool (Val.beqs a b))
+  | .ne, .list a, .list b => .ok (.bool (!Val.beqs a b))
   | op, .int a, .int b =>
     match cmpInt op a b with
     | some r => .ok (.bool r)
